@@ -722,8 +722,8 @@ PLANS = {
                 mc=[mc_job("nc_nonce", "MC_Netcode", {"quick": ["MC_NC_q3.cfg"], "thorough": ["MC_NC_q1.cfg", "MC_NC_q2.cfg", "MC_NC_q3.cfg", "MC_NC_q4.cfg"]}, ["C17"], strict=False)],
                 level="model_checking", assumptions=NC_ASSUME),
     "C18": Plan("nc", "TraceNetcodeMon", ["C18"], [("liveness", g_nc_live)],
-                mc=[mc_job("nc_live", "MC_Netcode", {"quick": ["MC_NC_live_q.cfg", "MC_NC_heal.cfg"],
-                                                            "thorough": ["MC_NC_live_q.cfg", "MC_NC_heal.cfg", "MC_NC_heal2.cfg", "MC_NC_limit.cfg", "MC_NC_live.cfg"]}, ["C18"], strict=False,
+                mc=[mc_job("nc_live", "MC_Netcode", {"quick": ["MC_NC_live_q.cfg", "MC_NC_heal.cfg", "MC_NC_heal3.cfg"],
+                                                            "thorough": ["MC_NC_live_q.cfg", "MC_NC_heal.cfg", "MC_NC_heal3.cfg", "MC_NC_heal2.cfg", "MC_NC_limit.cfg", "MC_NC_live.cfg"]}, ["C18"], strict=False,
                            cap_q=1200, timeout_t=3600)],
                 level="model_checking", assumptions=NC_ASSUME),
     "C19": Plan("nc", "TraceNetcodeMon", ["C19"], [("handshake_histories", g_nc_handshake), ("shapes", g_nc_shapes), ("token_table", g_nc_tokentable_thorough)],
